@@ -68,6 +68,11 @@ def run():
             jobs.append((chk.seed * 1000 + 500 + i, 80, "g%d" % i, None, "every=%d,phase=%d" % (97 + 10 * i, i)))
         jobs.append((chk.seed, -600 if not chk.thorough else -5000, "exhaust", 48, None))
         runs = vlib.parallel(lambda j: fd_run(build, sc, j[0], j[1], j[2], j[3], j[4]), jobs)
+        # a descriptor the interpreter only borrows (stderr wrapped by the embedding API) must never be closed by a finalizer
+        bexe = vlib.compile_c(build, os.path.join(vlib.VERIF, "harness", "c", "borrowfd.c"), sc.file("borrowfd"))
+        btrace = sc.file("fd_borrowed.ndjson")
+        bp = subprocess.run([bexe], env=build.env({"CHIBI_VERIF_TRACE": btrace}), cwd=vlib.REPO, stdout=subprocess.PIPE, stderr=subprocess.PIPE, timeout=300)
+        runs.append({"label": "borrowed", "trace": btrace, "seed": 0, "steps": 3, "rc": bp.returncode})
 
         def val(run):
             r = vlib.run_tlc("FdTrace.tla", "FdTrace.cfg", sc.path, env={"TRACE": run["trace"]}, workers=1, timeout=300, heap="2g")
